@@ -69,18 +69,18 @@ func OpBufferHistory(o *Out, r *Rng, initCap int, steps int) {
 			op = "bs h" + hex.EncodeToString([]byte(p))
 			newCap = cap(buf.AcquireBytes())
 		case 5:
-			n := r.Intn(2000000) - 1000
+			n, txt := histSrc(r)
 			var dst []byte
 			inspector.AssignBuf(&dst, n, buf)
 			hs = append(hs, &bufHandle{b: dst})
-			op = "ab h" + hex.EncodeToString([]byte(strconv.Itoa(n))) + " 0"
+			op = "ab h" + hex.EncodeToString([]byte(txt)) + " 0"
 			newCap = cap(buf.AcquireBytes())
 		case 6:
-			n := uint16(r.Intn(65536))
+			n, txt := histSrc(r)
 			var dst string
 			inspector.AssignBuf(&dst, n, buf)
 			hs = append(hs, &bufHandle{s: dst, isStr: true})
-			op = "ab h" + hex.EncodeToString([]byte(strconv.Itoa(int(n)))) + " 1"
+			op = "ab h" + hex.EncodeToString([]byte(txt)) + " 1"
 			newCap = cap(buf.AcquireBytes())
 		case 7:
 			if r.Chance(1, 2) {
@@ -156,4 +156,26 @@ func OpBufferHistory(o *Out, r *Rng, initCap int, steps int) {
 		obs = append(obs, sb.String())
 	}
 	o.Op("BH " + strconv.Itoa(initCap) + " | " + strings.Join(ops, " ; ") + " | " + strings.Join(obs, " ; "))
+}
+
+// histSrc picks a scalar of one of the families the conversion chain renders (integers, booleans, floats with an
+// exact short decimal form) together with the text it renders to.
+func histSrc(r *Rng) (any, string) {
+	switch r.Intn(5) {
+	case 0:
+		b := r.Bool()
+		return b, strconv.FormatBool(b)
+	case 1:
+		f := float64(r.Intn(4000)-2000) / 8
+		return f, strconv.FormatFloat(f, 'f', -1, 64)
+	case 2:
+		n := uint16(r.Intn(65536))
+		return n, strconv.Itoa(int(n))
+	case 3:
+		n := int8(r.Intn(256) - 128)
+		return n, strconv.Itoa(int(n))
+	default:
+		n := r.Intn(2000000) - 1000
+		return n, strconv.Itoa(n)
+	}
 }
